@@ -590,6 +590,55 @@ def search(ctx, broken, seeds):
                 return {"input": dict(inp, hash=old), "observed": {"ok": ok, "new": new}, "expected": f"(True, new) with new = {want_scheme} at {want_rounds} rounds, needing no further update"}
             if c.verify_and_update("pw", new, category=cat) != (True, None):
                 return {"input": dict(inp, hash=new), "observed": "another update requested", "expected": "(True, None): fixed point after one step"}
+    # per-category `deprecated`: the value that APPLIES to the category decides ("auto" = everything but that category's default; a list =
+    # exactly the listed schemes; an empty list = nothing), whichever spelling the global setting uses
+    base_schemes = ["sha256_crypt", "md5_crypt", "des_crypt"]
+    samples = {n: registry.get_crypt_handler(n).using(**({"rounds": 1000} if n == "sha256_crypt" else {})).hash("pw") for n in base_schemes}
+    for glob in (None, ["auto"], ["des_crypt"], ["md5_crypt", "des_crypt"], []):
+        for catv in (None, ["auto"], ["des_crypt"], ["md5_crypt"], []):
+            kw = {"schemes": base_schemes, "sha256_crypt__default_rounds": 1000, "sha256_crypt__min_rounds": 1000}
+            if glob is not None:
+                kw["deprecated"] = glob
+            if catv is not None:
+                kw["admin__context__deprecated"] = catv
+            try:
+                c = CryptContext(**kw)
+            except Exception as e:  # noqa: BLE001
+                return {"input": {"op": "category-deprecated", "kwds": kw}, "observed": errname(e) + ": " + str(e)[:80], "expected": "a valid configuration"}
+            for cat in (None, "admin", "other"):
+                eff_dep = catv if (cat == "admin" and catv is not None) else glob
+                for n in base_schemes:
+                    want = (n != "sha256_crypt") if eff_dep == ["auto"] else (n in (eff_dep or []))
+                    got = c.needs_update(samples[n], category=cat)
+                    if got != want:
+                        return {"input": {"op": "category-deprecated", "kwds": kw, "category": cat, "scheme": n, "hash": samples[n]}, "observed": got, "expected": want}
+                    ok, new = c.verify_and_update("pw", samples[n], category=cat)
+                    if ok is not True or (new is not None) != want:
+                        return {"input": {"op": "category-deprecated", "kwds": kw, "category": cat, "scheme": n, "hash": samples[n], "call": "verify_and_update"},
+                                "observed": [ok, new], "expected": "(True, new) iff deprecated for that category"}
+    # attribution does not depend on what the context was asked before: after any sequence of look-ups every hash is attributed like on
+    # a fresh context of the same configuration (schemes whose strings overlap: a prefix-only claimer listed after a stricter one)
+    overlap_sets = [["ldap_hex_md5", "ldap_md5", "ldap_hex_sha1", "ldap_sha1", "ldap_salted_sha1"], ["ldap_md5", "ldap_hex_md5", "md5_crypt"],
+                    ["sha256_crypt", "ldap_hex_sha1", "ldap_sha1", "plaintext"], ["bigcrypt", "des_crypt", "crypt16"], ["des_crypt", "bigcrypt"],
+                    ["django_salted_sha1", "django_salted_md5", "hex_md5", "hex_sha1"], ["nthash", "hex_md5", "lmhash", "hex_md4"]]
+    for schemes in overlap_sets:
+        hashes = []
+        for n in schemes:
+            h = registry.get_crypt_handler(n)
+            hashes += [h.using(**({"rounds": h.min_rounds} if "rounds" in (h.setting_kwds or ()) else {})).hash(pw) for pw in ("pw", "another")]
+        fresh_view = {}
+        for hh in hashes:
+            fresh_view[hh] = (CryptContext(schemes).identify(hh), CryptContext(schemes).verify("pw", hh))
+        live = CryptContext(schemes)
+        for _ in range(30 if not ctx.thorough else 300):
+            hh = rng.choice(hashes)
+            got = (live.identify(hh), live.verify("pw", hh))
+            if got != fresh_view[hh]:
+                return {"input": {"op": "lookup-history", "schemes": schemes, "hash": hh}, "observed": got, "expected": fresh_view[hh],
+                        "check": "after earlier look-ups on the same context object"}
+            ok, new = live.verify_and_update("pw", hh)
+            if ok is not fresh_view[hh][1]:
+                return {"input": {"op": "lookup-history", "schemes": schemes, "hash": hh, "call": "verify_and_update"}, "observed": [ok, new], "expected": fresh_view[hh][1]}
     # a cost of 0 is a legitimate configured value where the scheme's hard minimum is 0
     for kw in ({"schemes": ["sun_md5_crypt"], "sun_md5_crypt__default_rounds": 0}, {"schemes": ["sun_md5_crypt"], "sun_md5_crypt__default_rounds": 0, "sun_md5_crypt__max_rounds": 2000},
                {"schemes": ["sun_md5_crypt"], "guest__sun_md5_crypt__default_rounds": 0, "sun_md5_crypt__default_rounds": 3}):
